@@ -199,6 +199,10 @@ def r2_roundtrip(a, tier):
         ('group of a wide choice', lambda: G(Stub(Q['Choice'], options=[Stub(Q['Option'], exp=T(w)) for w in WIDE])),
          ('choice', tuple(('tok', w) for w in WIDE))),
         ('group of a wide sequence', lambda: G(seq(*[T(w) for w in WIDE + WIDE])), ('seq', tuple(('tok', w) for w in WIDE + WIDE))),
+        # leaves whose own text spans lines: a wrapper that indents the lines of a multi-line child must not indent INTO the leaf
+        ('constant over two lines', lambda: Stub(Q['Constant'], literal='one\ntwo'), ('const', 'one\ntwo')),
+        ('group of a wide choice ending in a constant over two lines', lambda: G(Stub(Q['Choice'], options=[Stub(Q['Option'], exp=T(w)) for w in WIDE] + [
+            Stub(Q['Option'], exp=Stub(Q['Constant'], literal='one\ntwo'))])), ('choice', tuple(('tok', w) for w in WIDE) + (('const', 'one\ntwo'),))),
     ]
     term_wrappers = [
         ('name=', lambda x: b.box('Named', x, name='n'), lambda i: ('named', 'n', i)),
@@ -246,6 +250,13 @@ def r2_roundtrip(a, tier):
     return rep
 
 
+def _walk_ir(t):
+    if isinstance(t, tuple):
+        yield t
+        for x in t:
+            yield from _walk_ir(x)
+
+
 def r3_nothing_dropped(a, tier):
     rep = RuleReport(
         'C13.R3',
@@ -265,10 +276,23 @@ def r3_nothing_dropped(a, tier):
         dict(name='derivedtyped', params=('Node',), kwparams={}, base='basic', is_name=False, no_memo=False),
         dict(name='strparams', params=('123', 'True'), kwparams={'k': '7'}, base=None, is_name=False, no_memo=False),
         dict(name='mixed', params=(123, 'abc'), kwparams={}, base=None, is_name=False, no_memo=False),
+        # strings that are spelled like the constants of the grammar language's `value` rule (its JSON-like literals)
+        dict(name='jsonwords', params=('true', 'false', 'null'), kwparams={'k': 'true', 'n': 'null'}, base=None, is_name=False, no_memo=False),
+        dict(name='constants', params=(True, None, 1.5), kwparams={'k': False}, base=None, is_name=False, no_memo=False),
         # a rule that was written with @override: the model holds only the final definition, so the printed text has nothing to override
         dict(name='redefined', params=(), kwparams={}, base=None, is_name=True, no_memo=False, decorators=['override', 'name']),
     ]
     rp = a.p.func('tatsu.peg.base.Rule._pretty')
+    # the reader's table of constant words is the grammar file's: `true: 'true'`, `false: 'false'`, `null: 'null'`, boolean, none
+    from ..pegir import PARAM_CONSTANTS
+    ebnf = parse_ebnf((a.p.root / 'tatsu' / '_tatsu.ebnf').read_text(encoding='utf-8'))
+    words = set()
+    for rn in ('true', 'false', 'null', 'boolean', 'none'):
+        r_ = ebnf.rules.get(rn)
+        if r_ is not None:
+            words |= {t[1] for t in _walk_ir(r_.exp) if isinstance(t, tuple) and t and t[0] == 'tok'}
+    if words != set(PARAM_CONSTANTS):
+        raise AnalysisError(f'C13.R3: the constant words of the grammar language are {sorted(words)} in _tatsu.ebnf, the reader knows {sorted(PARAM_CONSTANTS)}')
     for c in rule_cases:
         rule = Stub(Q['Rule'], exp=tok, **{'decorators': [], **c}, no_stak=False, is_tokn=False, is_memo=True, is_lrec=False)
         it = _interp(a)
@@ -552,4 +576,129 @@ def r5_antlr_models(a, tier):
     return rep
 
 
-RULES = [r_chain, r1_printers, r2_roundtrip, r3_nothing_dropped, r4_display_width, r5_antlr_models]
+RAILS = 'tatsu.railroads.walker.RailroadNodeWalker'
+PEG = 'tatsu.peg'
+
+
+def _uwidth(s: str) -> int:
+    import unicodedata
+    return sum(1 + int(unicodedata.east_asian_width(c) in ('W', 'F')) for c in s)
+
+
+def _railroad(a, node):
+    """RailroadNodeWalker.walk(node), interpreted: dispatch by the repository's own _find_walker, layout by its own railmath"""
+    import unicodedata
+
+    from ..modelinterp import FuncRef
+    from .c02 import _camel_to_snake
+    fw = a.p.func('tatsu.walkers.NodeWalker._find_walker')
+    it = ModelInterp(a, {'pythonize_name': Hook(_camel_to_snake), 'regexpp': Hook(lambda x: 'r' + repr(str(x))),
+                         'unicodedata': Hook(None, east_asian_width=Hook(unicodedata.east_asian_width)),
+                         're': Hook(None, sub=Hook(lambda p_, r_, s_, *f: re.sub(p_, r_, s_, *f))),
+                         'typename': Hook(lambda o: o._cls.split('.')[-1] if isinstance(o, Stub) else type(o).__name__),
+                         'join_lists': Hook(lambda *ls: [x for l_ in ls for x in l_])})
+    me = Stub(RAILS, _walker_cache={})
+
+    def walk(n, *args, **kw):
+        if not isinstance(n, Stub):
+            raise Unsupported(f'railroad walk of {type(n).__name__}')
+        w = it.call_bound(Bound(me, fw), [n], {})
+        if isinstance(w, FuncRef):
+            return list(it.call_bound(Bound(me, w.fn), [n], {}))
+        if w is None:
+            return n
+        return list(it.apply(w, [n], {}))
+    me._attrs['walk'] = Hook(walk)
+    return walk(node)
+
+
+def r6_railroads(a, tier):
+    from ..minieval import Raised
+    rep = RuleReport(
+        'C13.R6',
+        'the railroad rendering of a model completes with tracks of one width: RailroadNodeWalker (dispatch through the repository\'s own '
+        '_find_walker) and tatsu/railroads/railmath (weld, lay_out, loop, stopnloop, assert_one_length), interpreted on stand-in rules over '
+        'every expression node of C13.R2, nested wrappers, wide (East Asian) tokens and rule headers with typed parameters / keyword '
+        'parameters / base / decorators / left-recursion marks, return a non-empty list of strings whose display widths are all equal, and '
+        'raise nothing',
+        floor=60,
+    )
+    b = B(a)
+    T = lambda s='t': Stub(Q['Token'], token=s)  # noqa: E731
+    C = lambda n='r': Stub(Q['Call'], name=n)  # noqa: E731
+    seq = lambda *xs: Stub(Q['Sequence'], sequence=list(xs))  # noqa: E731
+    ch = lambda *xs: Stub(Q['Choice'], options=[Stub(Q['Option'], exp=x) for x in xs])  # noqa: E731
+    leaves = {
+        'token': lambda: T('abc'), 'wide token': lambda: T('日本語'), 'token with a quote': lambda: T("it's"), 'pattern': lambda: Stub(Q['Pattern'], pattern=r'\d+'),
+        'long pattern': lambda: Stub(Q['Pattern'], pattern=r'[A-Za-z_][A-Za-z_0-9]*(?:\.[A-Za-z_]+)*'), 'pattern over two lines': lambda: Stub(Q['Pattern'], pattern='a\nb'),
+        'call': lambda: C('expr'), 'dot': lambda: Stub(Q['Dot']), 'fail': lambda: Stub(Q['Fail']), 'void': lambda: Stub(Q['Void']), 'cut': lambda: Stub(Q['Cut']),
+        'eof': lambda: Stub(Q['EOF']), 'eol': lambda: Stub(f'{PEG}.basic.EOL'), 'empty closure': lambda: Stub(Q['EmptyClosure']),
+        'constant': lambda: Stub(Q['Constant'], literal='x + 1'), 'constant over two lines': lambda: Stub(Q['Constant'], literal='one\ntwo'),
+        'alert': lambda: Stub(Q['Alert'], literal='msg', level=2), 'name meta': lambda: Stub(f'{PEG}.meta.NameMeta'), 'int meta': lambda: Stub(f'{PEG}.meta.IntMeta'),
+        'rule include': lambda: Stub(Q['RuleInclude'], name='base', _exp=None),
+    }
+    wrappers = {
+        'group': lambda x: b.box('Group', x), 'skip group': lambda x: b.box('SkipGroup', x), 'optional': lambda x: b.box('Optional', x),
+        'closure': lambda x: b.box('Closure', x), 'positive closure': lambda x: b.box('PositiveClosure', x), '&': lambda x: b.box('Lookahead', x),
+        '!': lambda x: b.box('NegativeLookahead', x), '->': lambda x: b.box('SkipTo', x), 'join': lambda x: b.join('Join', x, T(',')),
+        'positive join': lambda x: b.join('PositiveJoin', x, T(',')), 'gather': lambda x: b.join('Gather', x, T(',')),
+        'positive gather': lambda x: b.join('PositiveGather', x, T(',')), 'left join': lambda x: Stub(f'{PEG}.deprecated.LeftJoin', exp=x, sep=T('+')),
+        'right join': lambda x: Stub(f'{PEG}.deprecated.RightJoin', exp=x, sep=T('^')), 'name=': lambda x: b.box('Named', x, name='n'),
+        'name+=': lambda x: b.box('NamedList', x, name='n'), '@:': lambda x: b.box('Override', x), '@+:': lambda x: b.box('OverrideList', x),
+        'sequence': lambda x: seq(T('p'), x, T('q')), 'choice': lambda x: ch(T('p'), x, seq(T('q'), T('r'))),
+    }
+    bodies = [(n, mk) for n, mk in leaves.items()]
+    inner = ['token', 'wide token', 'call', 'cut', 'constant over two lines', 'pattern over two lines']
+    for wn, w in wrappers.items():
+        for ln in inner:
+            bodies.append((f'{wn} of {ln}', (lambda w=w, ln=ln: w(leaves[ln]()))))
+    for wn, w in wrappers.items():
+        for wn2 in ('optional', 'closure', 'choice', 'join'):
+            bodies.append((f'{wn} of {wn2} of wide token', (lambda w=w, wn2=wn2: w(wrappers[wn2](leaves['wide token']())))))
+    if tier != 'thorough':
+        bodies = bodies[:len(leaves)] + bodies[len(leaves)::2]
+    plain = dict(params=(), kwparams={}, decorators=[], base=None, is_name=False, is_tokn=False, no_memo=False, no_stak=False, is_memo=True, is_lrec=False)
+    headers = [
+        ('plain', plain), ('string parameters', {**plain, 'params': ('Node', 'Other')}), ('typed parameters', {**plain, 'params': (3, 1.5, True, None, 'x')}),
+        ('keyword parameters', {**plain, 'kwparams': {'k': 'v', 'n': 7, 'b': False}}), ('both', {**plain, 'params': ('A', 2), 'kwparams': {'k': None}}),
+        ('decorators', {**plain, 'decorators': ['name', 'nomemo'], 'is_name': True, 'no_memo': True}), ('left recursive', {**plain, 'is_lrec': True}),
+        ('not memoized', {**plain, 'is_memo': False}), ('based', {**plain, 'base': 'basis'}), ('wide name', {**plain}),
+    ]
+
+    def check(what, node, one_width=True):
+        try:
+            rails = _railroad(a, node)
+            raised = None
+        except Unsupported as e:
+            raise AnalysisError(f'C13.R6: cannot interpret the railroad walker on {what}: {e}') from e
+        except Raised as e:
+            rails, raised = None, e.cls_name
+        widths = sorted({_uwidth(r) for r in rails}) if isinstance(rails, list) and all(isinstance(r, str) for r in rails) else None
+        ok = raised is None and widths is not None and (len(widths) == 1 or not one_width) and len(rails) > 0
+        rep.add({'model': what, 'tracks': len(rails) if isinstance(rails, list) else None, 'display_widths': widths, 'raised': raised, 'ok': ok})
+        if not ok:
+            cls = node._cls
+            from .c02 import _find_walker
+            try:
+                w = _find_walker(a, RAILS, cls)
+                where = w.fn if hasattr(w, 'fn') else None
+            except Unsupported:
+                where = None
+            rep.fail(where.qualname if where else RAILS, f'railroads:{what}', f'the railroad rendering of {what} ' + (
+                f'raises {raised}' if raised else f'gives tracks of display widths {widths}' if widths is not None else f'is {rails!r}, not a list of strings') +
+                ': model.railroads() / the railroad tool fails or draws misaligned tracks for such a grammar', where.loc if where else '')
+    for bn, mk in bodies:
+        check(f'the rule `r = {bn}`', Stub(Q['Rule'], name='r', exp=mk(), **plain))
+    for hn, fl in headers:
+        check(f'a rule header with {hn}', Stub(Q['Rule'], name=('規則' if hn == 'wide name' else 'r'), exp=T('x'), **fl))
+    # a based rule and a whole grammar
+    base_rule = Stub(Q['Rule'], name='basis', exp=T('b'), **plain)
+    check('a based rule `d < basis = x`', Stub(f'{PEG}.rulelike.BasedRule', name='d', exp=T('x'), baserule=base_rule, rhs=seq(T('b'), T('x')), **{**plain, 'base': 'basis'}))
+    # a grammar is its rules' drawings one after the other (each of its own width, checked above): it must complete
+    check('a grammar of three rules of different widths', one_width=False, node=Stub('tatsu.peg.base.Grammar', name='G', directives={}, keywords=[], rules=(
+        Stub(Q['Rule'], name='start', exp=seq(C('a'), C('b'), Stub(Q['EOF'])), **plain), Stub(Q['Rule'], name='a', exp=wrappers['closure'](T('日本')), **plain),
+        Stub(Q['Rule'], name='b', exp=ch(T('x'), T('yy'), seq(T('z'), wrappers['optional'](T('w')))), **{**plain, 'params': (1, 'p')}))))
+    return rep
+
+
+RULES = [r_chain, r1_printers, r2_roundtrip, r3_nothing_dropped, r4_display_width, r5_antlr_models, r6_railroads]
